@@ -716,7 +716,7 @@ def run(ctx):
             one(ctx, {"kind": "gtf-mixed-strand", "model": m, "dit": dit, "dig": dig, "db": dbkind}, m)
     # -- (one primary key, several lines) a shared exon_id under different transcripts x merge_strategy, custom keys in 2 of 3 ----
     for i in range(ctx.budget(36, 900)):
-        same = bool(i % 2)
+        same = i % 4 != 0
         for _ in range(40):
             m = G.model(rng, ngenes=rng.choice([1, 2, 2, 3]))
             if (i % 3 != 0) != ((m["tkey"], m["gkey"]) != ("transcript_id", "gene_id")):
@@ -753,8 +753,15 @@ MANIFEST = {
             "'merge', 'replace', 'create_unique', 'warning' (x four flag combinations) for files without duplicated ids whose own "
             "gene/transcript lines differ from what inference derives (other source, wider coordinates, extra attributes) or "
             "look exactly like it: the line must remain the single feature under its id with its own columns and attributes. "
+            "Two more classes: genes/transcripts whose exons lie on both strands of one seqid (antisense transcript under one gene "
+            "id, trans-spliced transcript) - extent over ALL exons, seqid, retrievability and hierarchy judged, strand only where "
+            "the exons agree; and files in which several exon lines under different transcripts get ONE primary key (shared "
+            "exon_id, id_spec {gene, transcript, exon: 'exon_id'}, custom gtf keys in 2 of 3) imported with merge_strategy "
+            "'replace' / 'warning' / 'merge' / 'create_unique': the model is computed over the lines that are stored features "
+            "(last / first / all merged into one / all), so a replaced line's links must be gone and its transcript must no longer span it. "
             "Held = no executed import disagreed.",
-    "note": "Trusted: gvmon/models/gtfinfer.py, gvmon/models/hierarchy.py. Not judged: extents under a set flag, attributes of "
+    "note": "Trusted: gvmon/models/gtfinfer.py, gvmon/models/hierarchy.py. Not judged: extents under a set flag, the strand of a "
+            "derived feature whose exons lie on both strands, attributes of "
             "derived features, features for ids that own no subfeature. Not generated: a shared transcript id whose genes differ in "
             "seqid/strand, or one of whose genes owns no subfeature line (create_db raises TypeError there when genes are inferred).",
 }
